@@ -73,7 +73,12 @@ async fn read_upto(s: &mut TcpStream, n: usize, ms: u64) -> (Vec<u8>, bool) {
     (out, false)
 }
 
-async fn one_case(log: &Log, r: &mut Rng, c: &Value, socks: &str, accept: &net::Target, accept6: &Option<net::Target>, refuse: std::net::SocketAddr) {
+async fn one_case(log: &Log, r: &mut Rng, c: &Value, socks: &str, have6: bool) {
+    // every case gets its own destination ports, so a dial is attributed to exactly one case even
+    // if it happens late
+    let accept = &net::start_target("127.0.0.1:0", TargetMode::Echo).await;
+    let accept6 = &(if have6 && c.get("atyp").and_then(|x| x.as_i64()) == Some(4) { Some(net::start_target("[::1]:0", TargetMode::Echo).await) } else { None });
+    let refuse = net::refusing_addr();
     let b = build(r, c, accept, accept6, refuse);
     let myports: Vec<u16> = vec![accept.addr.port(), refuse.port(), accept6.as_ref().map(|t| t.addr.port()).unwrap_or(0)];
     let frag = c.get("frag").and_then(|x| x.as_str()).unwrap_or("whole").to_string();
@@ -150,8 +155,7 @@ pub fn run(args: &Args, _log: &Log) -> Result<(), String> {
                 let client = net::make_client(&server, net::PASSWORD, PaddingFactory::default(), pool);
                 let socks = net::start_socks5(client.clone()).await;
                 let accept = net::start_target("127.0.0.1:0", TargetMode::Echo).await;
-                let accept6 = if std::net::TcpListener::bind("[::1]:0").is_ok() { Some(net::start_target("[::1]:0", TargetMode::Echo).await) } else { None };
-                let refuse = net::refusing_addr();
+                let have6 = std::net::TcpListener::bind("[::1]:0").is_ok();
                 let variants = if thorough { 2 } else { 1 };
                 for chunk in part.chunks(40) {
                     let mut sib = TcpStream::connect(&socks).await.ok();
@@ -160,7 +164,7 @@ pub fn run(args: &Args, _log: &Log) -> Result<(), String> {
                         let _ = s.write_all(&msg).await; let _ = read_upto(s, 12, 3000).await;
                     }
                     // events of one case are written as one block (shards run concurrently)
-                    for c in chunk { for _ in 0..variants { one_case(logp, &mut r, c, &socks, &accept, &accept6, refuse).await; } }
+                    for c in chunk { for _ in 0..variants { one_case(logp, &mut r, c, &socks, have6).await; } }
                     let mut ok = false;
                     if let Some(s) = sib.as_mut() { if s.write_all(b"sibling?").await.is_ok() { let (e, _) = read_upto(s, 8, 2000).await; ok = e == b"sibling?"; } }
                     logp.block(json!({"kind": "sibling-after-batch", "first": chunk.first()}), vec![json!({"ev": "sibling", "ok": ok}), json!({"ev": "end", "panics": PANICS.load(Ordering::SeqCst) - panics_base})]);
